@@ -247,5 +247,31 @@ def run(ctx):
                         ctx.count('rejected_rows')
                         if out.kind == 'value':
                             ctx.violation('decision-table', 'table', i, wit, mech=f"{kind}:accepted")
+                # duplicates judged on observed behaviour: any two keys that EACH bind field f on their own (whatever the naming
+                # model thinks of them - the Python name of a renamed field is such a key on this tree) name the same field
+                # together, and that is refused
+                fields_i = [f for f in S.ordered_fields() if f.init]
+                acc_i = {f.name: sorted(model.in_names(S, f)[0], key=repr) for f in fields_i}
+                base_i = {acc_i[f.name][0]: good_value(f, rng) for f in fields_i}
+                for f in fields_i:
+                    rest = {k: v for k, v in base_i.items() if k != acc_i[f.name][0]}
+                    cands = list(dict.fromkeys(acc_i[f.name] + [f.name, model.out_name(S, f)]))
+                    binding = []
+                    for n in cands:
+                        if n in rest:
+                            continue
+                        o = observe(cls.from_data, {**rest, n: good_value(f, rng)})
+                        if o.kind == 'value' and deep_typed_eq(good_value(f, rng), getattr(o.val, f.name, None))[0]:
+                            binding.append(n)
+                    for n1, n2 in itertools.combinations(binding, 2):
+                        both = observe(cls.from_data, {**rest, n1: good_value(f, rng), n2: good_value(f, rng)})
+                        ctx.count('observed_duplicate_rows')
+                        if both.kind == 'value':
+                            ctx.violation('decision-table', 'table', i,
+                                          {'class': S.brief(), 'row': 'two keys that each bind the field', 'field': f.name, 'keys': [n1, n2],
+                                           'pane': both.brief()}, mech='duplicate-pair(observed):accepted')
+                        elif both.kind == 'escape':
+                            ctx.violation('decision-table', 'table', i, {'class': S.brief(), 'field': f.name, 'keys': [n1, n2], 'pane': both.brief()},
+                                          mech=f"duplicate-pair(observed):escape-{type(both.exc).__name__}")
         except Exception as e:
             ctx.crash('table', i, e)
